@@ -11,6 +11,12 @@ use serde_json::{json, Value};
 pub struct C01;
 
 pub fn decode_pg(t: &mut Tape, cfg: &GenCfg, gcfg: &GoalCfg, ngoals: usize) -> PG {
+    // shape knob: dense coinductive cycles over a few ground types
+    if cfg.coinductive && t.chance(25) {
+        let program = gen_dense_coinductive(t);
+        let goals = (0..ngoals).map(|_| gen_dense_goal(t, &program)).collect();
+        return PG { program, goals };
+    }
     let program = gen_program(t, cfg);
     let goals = (0..ngoals).map(|_| gen_goal(t, &program, gcfg)).collect();
     PG { program, goals }
@@ -32,7 +38,7 @@ impl Property for C01 {
         ]
     }
     fn cases_per_shard(&self, tier: Tier) -> u32 {
-        tier.pick(150, 3000)
+        tier.pick(600, 6000)
     }
     fn decode(&self, t: &mut Tape, _tier: Tier) -> PG {
         let cfg = if t.chance(50) { GenCfg::horn_auto() } else { GenCfg::horn() };
@@ -98,8 +104,17 @@ impl Property for C01 {
                     };
                     out.bump(&format!("{}:{}", sv.name(), ans.kind()));
                     if let Some((class, msg)) = check_answer(&case.program, &lg.peeled, &ans, &sets) {
-                        let co = if sets.st.co_cycle { ":coinductive-cycle" } else { "" };
-                        out.fail(format!("{}:{}{}", sv.name(), class, co), format!("[{}] {}\n{}goal: {}\nanswer: {}", sv.name(), msg, low.text, lg.text, rendered));
+                        // one qualifier only (priority order), so that signatures stay canonical
+                        let qual = if class.contains("repeated-var") {
+                            ""
+                        } else if sets.st.used_env && case.program.traits.iter().any(|t| t.extra > 0) {
+                            ":env-with-trait-params"
+                        } else if sets.st.co_cycle {
+                            ":coinductive-cycle"
+                        } else {
+                            ""
+                        };
+                        out.fail(format!("{}:{}{}", sv.name(), class, qual), format!("[{}] {}\n{}goal: {}\nanswer: {}", sv.name(), msg, low.text, lg.text, rendered));
                     }
                     let nontrivial = (sets.s.len() + sets.n.len()) > 0 && ans.kind() != "Ambig" && goal_has_structure(g);
                     if nontrivial {
